@@ -13,13 +13,16 @@ P = {'level_text': "Theorems (kernel-checked) about FunctionData's store with Go
                'NodeManagementUseCaseData is read-modified-written through a one-level DataCopy, so both slice levels are shared with every value handed out; model Spine.UCS (heap with both levels, '
                'the helpers of model/nodemanagement_additions.go and usecaseinformation_additions.go as programs of heap writes in the order of the code). Proved at full strength for the member '
                '/repo is (clone before the change, append to a clipped slice, filter into a new list): along ANY history of EntityLocal helper calls, of model-level helpers run by the application on '
-               "a copy of its own, and of hand-outs, every value handed out at any point and the store's value at that point read the same after ANY later history (c11_usecase_snapshots_stable); a "
-               'scratch helper never changes the store (c11_scratch_helper_keeps_store); the bridge c11_owned_writes_keep_snapshots: ANY program of heap writes whose element assignments all go to '
-               'arrays it allocated itself keeps every earlier value, and the modelled programs are of that kind (c11_usecase_programs_write_owned). Refuted members (kernel-checked witnesses): '
-               'in-place filtering list[:0] in RemoveUseCaseDataForAddress (the value shows the following entity twice; invisible when the last element is removed; the store is the same for every '
-               'member), and the two in-place helpers before /repo 478c80b. REGENERATED from the SSA form of the tree on every run (go/snapfacts): no function of package model outside the update '
-               'engine (not reachable from the exported generic UpdateList) writes through a slice it did not allocate - element store, field of an element, mutating method on an element, copy, '
-               'in-place slices.* / sort.*, append into spare capacity (c11_helpers_write_only_own_slices, non-vacuous: c11_helpers_write_somewhere). CONCURRENT CLAUSE - model Spine.SnapConc '
+               "a fresh copy of its own or on a value it was handed earlier, and of hand-outs, every value handed out at any point and the store's value at that point read the same after ANY later "
+               'history (c11_usecase_snapshots_stable); a scratch helper never changes the store (c11_scratch_helper_keeps_store); the bridge c11_owned_writes_keep_snapshots: ANY program of heap '
+               'writes whose element assignments all go to arrays it allocated itself keeps every earlier value, and the modelled programs are of that kind (c11_usecase_programs_write_owned). '
+               "CROSS-MODEL AGREEMENT with C20's value-level registry Spine.UC, proved for every well-formed heap and every input: what the store reads after a helper program equals the registry "
+               'operation applied to what it read before (c11_usecase_program_is_the_registry_operation), and along any history from the empty store the store reads the fold of the registry '
+               "operations of the EntityLocal helper calls, hand-outs and the application's own helper calls playing no role (c11_usecase_store_is_the_registry). Refuted members (kernel-checked "
+               'witnesses): in-place filtering list[:0] in RemoveUseCaseDataForAddress (the value shows the following entity twice; invisible when the last element is removed; the store is the same '
+               'for every member), and the two in-place helpers before /repo 478c80b. REGENERATED from the SSA form of the tree on every run (go/snapfacts): no function of package model outside the '
+               'update engine (not reachable from the exported generic UpdateList) writes through a slice it did not allocate - element store, field of an element, mutating method on an element, '
+               'copy, in-place slices.* / sort.*, append into spare capacity (c11_helpers_write_only_own_slices, non-vacuous: c11_helpers_write_somewhere). CONCURRENT CLAUSE - model Spine.SnapConc '
                '(micro-step interleavings of DataCopy against any number of in-place updaters): with the copy inside the critical section, on EVERY schedule every copied word is the word of the '
                "store at the reader's acquire, one of the states the store went through (c11_snapshot_is_one_state); refuted for the member that fetches the pointer under the mutex and copies after "
                'the unlock (c11_snapshot_refuted_copy_after_unlock). The member is selected by the source: regenerated table of every access to the stored pointer of spine.FunctionData and through '
@@ -38,13 +41,22 @@ P = {'level_text': "Theorems (kernel-checked) about FunctionData's store with Go
                '4 readers, 0.8 s quick / 5 s thorough; SPEC: every snapshot is one store state) - a search, not steered (no yield hook inside DataCopy): on a tree whose copy is outside the critical '
                'section it found the mixed snapshot in every run made (seeded C11-r4-2, own mutants), and the proof obligation fails deterministically. Trusted in addition: the SSA walkers of '
                'go/snapfacts (limits in design/audit-C11.md: pointers to elements travelling through variables, reflection); the micro-step reading of sync.Mutex in Spine.SnapConc; hand-written '
-               "Spine.UCS (programs transcribed from the helpers; agreement with C20's value-level model Spine.UC validated by the run, not proved). Clause 1 is not widened beyond Op.Safe histories "
-               'for retained handles of list stores.',
+               "Spine.UCS (programs transcribed from the helpers; its store semantics is PROVED equal to C20's value-level model Spine.UC - Spine.UseCaseSnapRefine - and compared with the real code "
+               'op by op). Clause 1 is not widened beyond Op.Safe histories for retained handles of list stores.',
  'props_modules': ['Spine.Props.C11', 'Spine.Props.C11Snap', 'Spine.Props.C11Gen'],
  'generated_props': ['Spine.Props.C11Gen'],
  'generated': ['snapfacts'],
  'generated_files': ['SnapFacts.lean'],
- 'lemma_modules': ['Spine.UpdateF', 'Spine.Heap', 'Spine.C04Thm', 'Spine.HeapThm', 'Spine.C04Wit', 'Spine.C04Applied', 'Spine.SnapFacts', 'Spine.UseCaseSnap', 'Spine.UseCaseSnapThm'],
+ 'lemma_modules': ['Spine.UpdateF',
+                   'Spine.Heap',
+                   'Spine.C04Thm',
+                   'Spine.HeapThm',
+                   'Spine.C04Wit',
+                   'Spine.C04Applied',
+                   'Spine.SnapFacts',
+                   'Spine.UseCaseSnap',
+                   'Spine.UseCaseSnapThm',
+                   'Spine.UseCaseSnapRefine'],
  'drivers': ['drv_heap', 'drv_ucsnap'],
  'tests': [{'name': 'TestHeap'}, {'name': 'TestSnap'}],
  'trusted_base': ['models Spine.Update (shared with C02), Spine.UpdateF, Spine.Heap written by hand from model/update.go, model/collection_operations.go, spine/function_data.go',
